@@ -20,7 +20,11 @@ PLAN = dict(
          "operations - key generation, signing, encryption, key exchange, certificate creation and verification, AEADs, on "
          "sm2p256v1, on a NIST curve and on SM9 - as their very first library calls), then runs rounds: cold shared objects "
          "(SM2 private/public key, SM2-scheme keys on NIST P-256 [P-521 in the purego build] and P-384 incl. a shared "
-         "*ecdsa.PrivateKey, ECDH key, SM9 sign/encrypt master and user keys unmarshalled from bytes, SM4 block + shared GCM "
+         "*ecdsa.PrivateKey, ECDH key, SM9 sign/encrypt master and user keys in BOTH representations the API hands out - decoded "
+         "from bytes (every object owns its copy of the master public key) and fresh from Generate*MasterKey / GenerateUserKey, "
+         "never serialised (master, PublicKey() and user key share one internal master public key with its caches); each SM9 "
+         "call takes the representation its seed selects -, 8 G1 and 8 G2 group elements still in projective form (through the "
+         "verif hook; 2 in purego), SM4 block + shared GCM "
          "(12- and 16-byte nonces) and CCM AEADs, certificate pools filled lazily from PEM and from parsed certificates with "
          "a constraint callback), 4/8/16 goroutines released from a barrier, each executing a seeded list of 3-8 of 117 "
          "operations with scripted randomness, then the same lists sequentially on a second cold object set; results must "
@@ -34,7 +38,14 @@ PLAN = dict(
          "keys, SM9 exchange between the shared user key and keys derived during the round); objects only one goroutine "
          "knows (one such call in every list, several new objects per call). Round kinds: same first operation on half of "
          "the goroutines / pool-heavy / family rounds (first call of every goroutine works on ONE parent object: sm2, "
-         "legacy curve, ecdh, sm9 sign master, sm9 encrypt master, block, pool, own objects). "
+         "legacy curve, ecdh, sm9 sign master, sm9 encrypt master, block, pool, own objects, shared projective points). After a "
+         "round the VALUE of every shared object (scalars, coordinates, encodings, marshalled points, pool subjects) must equal "
+         "its value after the sequential replay. Then 3 (purego 2) first-use BURST cases per process: many cheap trials of one "
+         "object kind (projective points; sm2 key from NewPrivateKey/GenerateKey/FromECPrivateKey/parsed SEC 1; ecdh key from "
+         "NewPrivateKey/GenerateKey/sm2 ECDH(); sm9 sign and encrypt master generated or decoded with user key derived or "
+         "decoded; sm4 block; pool from PEM or parsed) - a new cold object per trial, 2-4 goroutines released by a spinning "
+         "barrier making its first calls at the same instant, the same calls sequentially on a twin, results and object value "
+         "compared. "
          "Distinct = class keys (configuration | round kind and goroutines / simultaneous first calls observed / completion "
          "order of the first four finishers / GOMAXPROCS, plus the first-use operations that were contended)",
     jobs=_jobs(),
@@ -53,10 +64,23 @@ CLAIM = dict(
          "process-wide singletons; objects derived from a shared parent while the parent is first used (user keys, public keys "
          "from accessors, ECDH conversions, re-constructed keys, pool clones, modes/AEADs/MACs over the shared block) are then "
          "used; key agreement is run to the end; every concurrent result is compared with a sequential replay of the same "
-         "deterministic call list, every goroutine must return (bounded progress, confirmed by the sequential replay and a "
+         "deterministic call list, and the value of every shared object afterwards with its value after the replay; shared SM9 keys "
+         "are present decoded and fresh from generation/derivation, group elements also in projective form (through the verif "
+         "hook: the public key objects never hold one, their constructors normalise the point), and first-use bursts give "
+         "one-shot transitions (sync.Once, normalisation, lazy parsing, cached inverse) thousands of simultaneous first calls "
+         "per run; every goroutine must return (bounded progress, confirmed by the sequential replay and a "
          "solitary re-run before it is reported), panics in goroutines are caught. The evidence reports how many rounds really "
          "had overlapping first-use calls, the round kinds and how many distinct completion orders were seen.",
     design_ref="DESIGN.md 6 (C20)",
     note="trusted: race detector, Go runtime; only interleavings the scheduler produced are observed",
-    technique="race detector + concurrent-vs-sequential result equality + bounded progress on cold shared and derived objects",
+    technique="race detector + concurrent-vs-sequential equality of results and object values + bounded progress on cold shared and derived objects in every representation",
 )
+
+# Coordinator's note: the operations on PROJECTIVE bn256 group elements reached through the verif hook (ops_points.go, the
+# first burst kind) are not executed by the registered commands (development switch VERIF_C20_INTERNAL_POINTS=1): no public
+# constructor hands out a projective point, so they test an internal contract, not property C20.
+_NOTE = (" [The operations on projective group elements through the verif hook mentioned above are development-only and are "
+         "NOT executed by the registered commands: no public constructor hands out a projective point, so they would test an "
+         "internal contract rather than this property.]")
+PLAN["rule"] += _NOTE
+CLAIM["text"] += _NOTE
